@@ -3,7 +3,7 @@ import CelmaVerif.Model.Usage
 /- line-protocol driver for the usage listing (C18); the operations are described in harness/usage.cpp -/
 open CelmaVerif CelmaVerif.Usage CelmaVerif.Proto
 
-abbrev St := Option Handler
+abbrev St := Option Tree
 
 def strOfBytes (bs : List Nat) : List Char := bs.map Char.ofNat
 def hexOfStr (s : List Char) : String := hexOut (s.map Char.toNat)
@@ -70,15 +70,21 @@ def bool01 (t : List String) (k : String) : Option Bool :=
 
 def allowedKeys : List String :=
   ["key", "kind", "value", "default", "mandatory", "hidden", "deprecated", "replaced", "check", "requires",
-   "excludes", "desc"]
+   "excludes", "desc", "k"]
 
-def parseArg (t : List String) : Option (Arg × List Mod) := do
+def nat? (s : String) : Option Nat :=
+  if s.length > 4 || s.isEmpty || !s.all Char.isDigit then none else s.toNat?
+
+def parseArg (t : List String) (group : Option Nat := none) : Option (Arg × List Mod) := do
   if !(t.all fun w => allowedKeys.contains ((w.splitOn "=").headD "")) then none
   let key ← (kv t "key").bind parseKey
   let desc ← (kv t "desc").bind hexStr?
-  let kind ← kv t "kind"
+  let kind ← match group with
+    | some _ => (match kv t "kind" with | none => some "group" | some _ => none)
+    | none => kv t "kind"
   let base : Arg ←
     match kind, kv t "value" with
+    | "group", none => group.map (subGroupArg key desc)
     | "int", none => some { key, desc, takesValue := true, isFlag := false, defaultText := some (intStr 0), printDefault := true }
     | "int", some v => (int? v).map fun i =>
         { key, desc, takesValue := true, isFlag := false, defaultText := some (intStr i), printDefault := true }
@@ -117,32 +123,85 @@ def parseSwitch (f : Flags) : String → Option Switch
   | "help-long" => if f.usageLong then some .helpLong else none
   | _ => none
 
+def parseSubSwitch (f : Flags) : String → Option SubSwitch
+  | "print-deprecated" => if f.argDeprecated then some .printDeprecated else none
+  | "help-short" => if f.usageShort then some .helpShort else none
+  | "help-long" => if f.usageLong then some .helpLong else none
+  | _ => none
+
+def commaList (s : Option String) : List String :=
+  match s with
+  | none => []
+  | some s => s.splitOn ","
+
 def linesHex (ls : List (List Char)) : String := hexOfStr (unlines ls)
+
+/-- is sub-group handler `k` entered by a sub-group argument of the main handler? -/
+def attached (t : Tree) (k : Nat) : Bool := t.main.args.any fun a => a.subGroup == some k
+
+def outErr (r : Res (List (List Char) × List (List Char))) : String :=
+  match r with
+  | .ok (o, e) => s!"ok out={linesHex o} err={linesHex e}"
+  | .throw e => s!"throw {e.name}"
+  | .oob w => s!"oob {w}"
 
 def step (s : St) (line : String) : St × String :=
   match tokens line with
   | ["case", _] => (none, "ok")
   | ["us", "begin", fl] =>
     match (kv [fl] "flags").bind parseFlags with
-    | some f => (some (Handler.new f), "ok")
+    | some f => (some (Tree.new f), "ok")
     | none => (s, "bad-op")
+  | ["us", "sub", fl] =>
+    match s, (kv [fl] "flags").bind parseFlags with
+    | some t, some f => (some (t.newSub f), "ok")
+    | _, _ => (s, "bad-op")
   | "us" :: "arg" :: rest =>
-    match s, parseArg rest with
-    | some h, some (a, mods) =>
-      let (h', e) := h.addArgument a mods
-      (some h', match e with | none => "ok" | some e => s!"throw {e.name}")
+    match s, (if (kv rest "k").isSome then none else parseArg rest) with
+    | some t, some (a, mods) =>
+      let (t', e) := t.addArgument a mods
+      (some t', match e with | none => "ok" | some e => s!"throw {e.name}")
+    | _, _ => (s, "bad-op")
+  | "us" :: "subarg" :: rest =>
+    match s, (kv rest "k").bind nat?, parseArg rest with
+    | some t, some k, some (a, mods) =>
+      match t.subAddArgument k a mods with
+      | .ok (t', e) => (some t', match e with | none => "ok" | some e => s!"throw {e.name}")
+      | _ => (s, "bad-op")
+    | _, _, _ => (s, "bad-op")
+  | "us" :: "group" :: rest =>
+    match s, (kv rest "k").bind nat? with
+    | some t, some k =>
+      if k ≥ t.subs.length || attached t k then (s, "bad-op")
+      else
+        match parseArg rest (some k) with
+        | some (a, mods) =>
+          let (t', e) := t.addArgument a mods
+          (some t', match e with | none => "ok" | some e => s!"throw {e.name}")
+        | none => (s, "bad-op")
     | _, _ => (s, "bad-op")
   | ["us", "linelen", n] =>
     match s, int? n with
-    | some h, some n =>
-      match h.setLineLength n with
-      | .ok h' => (some h', "ok")
+    | some t, some n =>
+      match t.setLineLength n with
+      | .ok t' => (some t', "ok")
       | .throw e => (s, s!"throw {e.name}")
       | .oob w => (s, s!"oob {w}")
     | _, _ => (s, "bad-op")
+  | ["us", "sublinelen", k, n] =>
+    match s, (kv [k] "k").bind nat?, int? n with
+    | some t, some k, some n =>
+      if k ≥ t.subs.length then (s, "bad-op")
+      else
+        match t.subSetLineLength k n with
+        | .ok t' => (some t', "ok")
+        | .throw e => (s, s!"throw {e.name}")
+        | .oob w => (s, s!"oob {w}")
+    | _, _, _ => (s, "bad-op")
   | "us" :: "usage" :: words =>
     match s with
-    | some h =>
+    | some t =>
+      let h := t.main
       if !(h.flags.helpShort || h.flags.helpLong) then (s, "bad-op")
       else
         match words.mapM (parseSwitch h.flags) with
@@ -153,16 +212,50 @@ def step (s : St) (line : String) : St × String :=
           | .oob w => (s, s!"oob {w}")
         | none => (s, "bad-op")
     | none => (s, "bad-op")
-  | ["us", "helparg", k] =>
-    match s, parseKey k with
-    | some h, some key =>
-      if !h.flags.helpArg then (s, "bad-op")
+  | "us" :: "subusage" :: rest =>
+    match s, (kv rest "k").bind nat? with
+    | some t, some k =>
+      if !(rest.all fun w => ["k", "pre", "in"].contains ((w.splitOn "=").headD "")) then (s, "bad-op")
       else
-        match helpArgument h k.toList key with
-        | .ok (o, e) => (s, s!"ok out={linesHex o} err={linesHex e}")
-        | .throw e => (s, s!"throw {e.name}")
-        | .oob w => (s, s!"oob {w}")
+        match t.subs[k]? with
+        | none => (s, "bad-op")
+        | some sh =>
+          if !attached t k || !(sh.flags.helpShort || sh.flags.helpLong) then (s, "bad-op")
+          else
+            match (commaList (kv rest "pre")).mapM (parseSwitch t.main.flags),
+                  (commaList (kv rest "in")).mapM (parseSubSwitch sh.flags) with
+            | some pre, some inn =>
+              match t.usageSub k (pre.map Ev.main ++ inn.map (Ev.sub k)) with
+              | .ok ls => (s, s!"ok text={linesHex ls}")
+              | .throw e => (s, s!"throw {e.name}")
+              | .oob w => (s, s!"oob {w}")
+            | _, _ => (s, "bad-op")
     | _, _ => (s, "bad-op")
+  | ["us", "helparg", k] =>
+    match s with
+    | some t =>
+      if !t.main.flags.helpArg then (s, "bad-op")
+      else
+        match k.splitOn "/" with
+        | [k] =>
+          match parseKey k with
+          | some key => (s, outErr (helpArgument t.main k.toList key))
+          | none => (s, "bad-op")
+        | [g, r] =>
+          match parseKey g, parseKey r with
+          | some gk, some rk => (s, outErr (t.helpArgumentSlash k.toList gk r.toList rk))
+          | _, _ => (s, "bad-op")
+        | _ => (s, "bad-op")
+    | none => (s, "bad-op")
+  | ["us", "subhelparg", ks, k] =>
+    match s, (kv [ks] "k").bind nat?, parseKey k with
+    | some t, some i, some key =>
+      match t.subs[i]? with
+      | none => (s, "bad-op")
+      | some sh =>
+        if !attached t i || !sh.flags.helpArg then (s, "bad-op")
+        else (s, outErr (t.helpArgumentSub i k.toList key))
+    | _, _, _ => (s, "bad-op")
   | _ => (s, "bad-op")
 
 def main : IO Unit := run (none : St) step
